@@ -586,7 +586,7 @@ def rng_trim(p, res):
         else:
             res.undecided('trim loop body %s' % body, 'start += 1 / end -= 1')
     ret = [n for n in f.body_nodes() if isinstance(n, ast.Return)]
-    if len(ret) == 1 and src_of(ret[0].value) == '(start, end) if start != end else None':
+    if len(ret) == 1 and src_of(ret[0].value) in ('(start, end) if start < end else None', '(start, end) if end > start else None', '(start, end) if start != end else None'):
         res.ok('empty range -> None')
     else:
         res.undecided(src_of(ret[0].value) if ret else '?', 'an empty inner range must be reported as None (decided by the table of inner_range)')
